@@ -119,19 +119,17 @@ def drivers():
 
     @numba.njit(cache=False)
     def drive_length(cfg, days, start, stop, dist, penalty, ub, rounds,
-                     settings, res):
+                     settings, res, byes):
         """
         Run game_plan_length on all plans [start, stop).
 
         res: 0 evaluations, 1 bad idx (-1), 2 kind, 3 cell, 4 observed,
-        5 expected, 6 feasible plans, 7 min length over plans with
-        count_errors == 0 (per `settings` row 0), 8 bye replacements checked
+        5 expected, 6 feasible plans, 7 min length over plans that are
+        feasible by the model (per `settings` row 0), 8 bye replacements checked
         kinds: 1 value != model, 2 bounds, 3 bye does not increase
         """
         n = cfg.shape[1]
         y = np.zeros((days, n), np.int8)
-        t1 = np.zeros(n * (n - 1) // 2, np.int64)
-        t2 = np.zeros((n, n), np.int64)
         res[1] = -1
         res[7] = -1
         for idx in range(start, stop):
@@ -152,13 +150,14 @@ def drivers():
                 res[4] = got
                 res[5] = exp
             if settings.shape[0] > 0:
-                er = count_errors(y, settings[0, 0], settings[0, 1],
-                                  settings[0, 2], settings[0, 3],
-                                  settings[0, 4], settings[0, 5], t1, t2)
-                if er == 0:
+                if feas(y, rounds, settings[0, 0], settings[0, 1],
+                        settings[0, 2], settings[0, 3], settings[0, 4],
+                        settings[0, 5]):
                     res[6] += 1
                     if res[7] < 0 or got < res[7]:
                         res[7] = got
+            if not byes:
+                continue
             for cell in range(days * n):
                 d0 = cell // n
                 c0 = cell % n
